@@ -148,6 +148,62 @@ fn main() {
                 emit(&format!("gen:{profile}:{seed}:{i}"), &c.wgsl);
             }
         }
+        "genpath" => {
+            // like `gen`, but with an include path (create_shader_module instead of ..._embedded)
+            let profile = &args[2];
+            let seed: u64 = args[3].parse().unwrap();
+            let count: u64 = args[4].parse().unwrap();
+            let paths = [
+                "shader.wgsl", "../shaders/my shader.wgsl", "C:\\dir\\x.wgsl", "ünï/码.wgsl", "quote\"d.wgsl",
+                "", "a/b/c/d/e/f.wgsl", "tab\tname.wgsl", "{brace}.wgsl", "nl\nname.wgsl",
+            ];
+            for i in 0..count {
+                let c = verif_harness::wgslgen::generate(profile, seed, i);
+                emit_path(&format!("genpath:{profile}:{seed}:{i}"), &c.wgsl, paths[(i as usize) % paths.len()]);
+            }
+        }
+        "pc" => {
+            // push-constant usage patterns x every sequence of entry-point stages up to length maxlen
+            let maxlen: usize = args[2].parse().unwrap();
+            let tys = ["vec4<f32>", "f32", "mat4x4<f32>", "PC", "array<vec4<f32>, 3>", "mat3x3<f32>", "vec3<u32>"];
+            let mut k = 0usize;
+            for len in 1..=maxlen {
+                let total = 3usize.pow(len as u32);
+                for code in 0..total {
+                    let mut stages = vec![];
+                    let mut c = code;
+                    for _ in 0..len {
+                        stages.push(c % 3);
+                        c /= 3;
+                    }
+                    // usage: 0 = unused, 1 = first entry, 2 = last entry, 3 = all through a helper, 4 = middle via nested helper
+                    for usage in 0..5usize {
+                        let ty = tys[k % tys.len()];
+                        k += 1;
+                        let mut s = String::new();
+                        s.push_str("struct PC { a: vec3<f32>, b: f32, c: vec2<f32> }\n");
+                        s.push_str(&format!("var<push_constant> pc: {ty};\n"));
+                        s.push_str("fn leaf() -> f32 { _ = pc; let p = pc; return 1.0; }\nfn mid() -> f32 { var x = 0.0; loop { if x > 1.0 { break; } continuing { x += leaf(); } } return x; }\n");
+                        for (i, st) in stages.iter().enumerate() {
+                            let uses = match usage {
+                                0 => false,
+                                1 => i == 0,
+                                2 => i == len - 1,
+                                3 => true,
+                                _ => i == len / 2,
+                            };
+                            let body = if !uses { "" } else if usage == 3 { "let q = leaf();" } else if usage == 4 { "let q = mid();" } else { "let q = pc;" };
+                            match st {
+                                0 => s.push_str(&format!("@vertex fn e{i}() -> @builtin(position) vec4<f32> {{ {body} return vec4<f32>(0.0); }}\n")),
+                                1 => s.push_str(&format!("@fragment fn e{i}() -> @location(0) vec4<f32> {{ {body} return vec4<f32>(0.0); }}\n")),
+                                _ => s.push_str(&format!("@compute @workgroup_size(1) fn e{i}() {{ {body} }}\n")),
+                            }
+                        }
+                        emit(&format!("pc:{len}:{code}:{usage}"), &s);
+                    }
+                }
+            }
+        }
         "family" => {
             let n: usize = args[3].parse().unwrap();
             let src = match args[2].as_str() {
